@@ -417,6 +417,14 @@ func (f *FileStore) Apply(fn func(r TSMFile) error) error {
 	errC := make(chan error, len(f.files))
 
 	for _, f := range f.files {
+		if verifhook.Enabled {
+			// Under the simulator the files are visited one after another, in
+			// file order: which goroutine runs first is not the scheduler's call.
+			f.Ref()
+			errC <- fn(f)
+			f.Unref()
+			continue
+		}
 		go func(r TSMFile) {
 			limiter.Take()
 			defer limiter.Release()
